@@ -714,6 +714,47 @@ Definition run_cmd (timeout now : Z) (o : oracle) (s : st) (P : str) (c : cmd) :
   let '(s', _, a) := lookup timeout now (r_st out) P in
   Out s' (r_ok out) (r_amb out || a) (r_set out).
 
+(* ---- Irc.doNick with supybot.followIdentificationThroughNickChanges (src/irclib.py):
+   a client P that is recognised changes nick; its hostmask becomes newP.  For
+   every entry (when, m) of a COPY of user.auth with strEqual(P, m) the entry is
+   moved to newP (gen.T04.NICK_FOLLOW_REPLACES: replaced in place) and
+   users.setUser(u) is called; a refusal of setUser ends the handler.
+   [done ++ todo ++ extra] is user.auth, [todo] what the loop has not seen yet. *)
+Fixpoint follow_loop (timeout now : Z) (id : N) (P newP : str) (done todo extra : list (Z * str)) (s : st)
+  : st * res unit :=
+  match todo with
+  | [] => (s, Ok tt)
+  | (w, m) :: rest =>
+      if ieq P m then
+        match uget id (s_users s) with
+        | None => (s, Raise KeyError)
+        | Some u =>
+            let '(done', extra') :=
+              if gen.T04.NICK_FOLLOW_REPLACES then (done ++ [(w, newP)], extra)
+              else (done ++ [(w, m)], extra ++ [(w, newP)]) in
+            let u' := set_auth u (done' ++ rest ++ extra') in
+            let '(s', r) := setUser timeout now (store s id u') id u' in
+            match r with
+            | Ok _ => follow_loop timeout now id P newP done' rest extra' s'
+            | Raise e => (s', Raise e)
+            end
+        end
+      else follow_loop timeout now id P newP (done ++ [(w, m)]) rest extra s
+  end.
+
+Definition nickchange (timeout now : Z) (follow : bool) (s : st) (P newP : str) : st * res unit :=
+  if negb follow then (s, Ok tt) else
+  let '(s1, r) := getUserId timeout now s P in
+  match r with
+  | Raise KeyError => (s1, Ok tt)
+  | Raise e => (s1, Raise e)
+  | Ok id =>
+      match uget id (s_users s1) with
+      | None => (s1, Ok tt)
+      | Some u => follow_loop timeout now id P newP [] (u_auth u) [] s1
+      end
+  end.
+
 (* ---- wire ---- *)
 Definition gAuth (v : value) : list (Z * str) := map (fun e => (gZ (nth_v 0 e), gS (nth_v 1 e))) (gL v).
 Definition gUser (v : value) : user :=
@@ -763,6 +804,7 @@ Definition gCmd (v : value) : cmd :=
    0: (pattern hostmask) -> bool                       glob matcher
    1: (timeout now state op) -> (state' result)        one step
    2: (timeout now state hostmask) -> list of ids      cache-free recognisers
+   4: (timeout now state prefix newprefix follow) -> (state' result)   a NICK message from prefix seen by the bot
    3: (timeout now state prefix cmd oracle) -> (state' ok ambiguous setuser-raised)   one User plugin command *)
 Definition run (v : value) : value :=
   let p := nth_v 1 v in
@@ -771,6 +813,8 @@ Definition run (v : value) : value :=
   | 1 => let '(s', r) := step (gZ (nth_v 0 p)) (gZ (nth_v 1 p)) (gSt (nth_v 2 p)) (gOp (nth_v 3 p)) in
          L [vSt s'; vR vN r]
   | 2 => L (map vN (recognisers (gZ (nth_v 0 p)) (gZ (nth_v 1 p)) (gSt (nth_v 2 p)) (gS (nth_v 3 p))))
+  | 4 => let '(s', r) := nickchange (gZ (nth_v 0 p)) (gZ (nth_v 1 p)) (gB (nth_v 5 p)) (gSt (nth_v 2 p)) (gS (nth_v 3 p)) (gS (nth_v 4 p)) in
+         L [vSt s'; vR (fun _ => vN 0) r]
   | 3 => let out := run_cmd (gZ (nth_v 0 p)) (gZ (nth_v 1 p)) (gOracle (nth_v 5 p)) (gSt (nth_v 2 p)) (gS (nth_v 3 p)) (gCmd (nth_v 4 p)) in
          L [vSt (r_st out); vB (r_ok out); vB (r_amb out); vB (r_set out)]
   | _ => L []
